@@ -12,10 +12,10 @@ open Prog
 may create on the way are directories only). -/
 def Call.targets : Call → List Path
   | .mkdirP p => [p]
-  | .mkTemp dir => [dir]
+  | .mkTemp dir | .mkTempLink dir _ => [dir]
   | .fallocate p _ | .writeAt p _ _ | .truncate p _ | .openAppend p | .appendWrite p _
   | .unlink p | .removeTree p => [p]
-  | .rename s d => [s, d]
+  | .rename s d | .renameLink s d => [s, d]
   | .hardLink _ d | .symlink _ d | .copyFile _ d | .reflink _ d => [d]
   | _ => []
 
@@ -146,6 +146,9 @@ theorem dropTmp_within (cache tmp : Path) (h : cache <+: tmp) :
 theorem tmp_of_answer {dir tmp : Path} (h : Answer (Call.mkTemp dir) (Ret.path tmp)) :
     ∃ n, tmp = dir ++ [n] := h
 
+theorem tmpLink_of_answer {dir tmp : Path} {t : Target} (h : Answer (Call.mkTempLink dir t) (Ret.path tmp)) :
+    ∃ n, tmp = dir ++ [n] := h
+
 /-- Prove `root <+: p` from what is around. -/
 syntax "ac_prefix" : tactic
 macro_rules
@@ -155,7 +158,8 @@ macro_rules
       | exact List.prefix_refl _
       | exact prefix_contentPath (by assumption)
       | exact prefix_parent_contentPath (by assumption)
-      | (obtain ⟨n, hn⟩ := tmp_of_answer (by assumption); rw [hn]; exact prefix_tmp _ _))
+      | (obtain ⟨n, hn⟩ := tmp_of_answer (by assumption); rw [hn]; exact prefix_tmp _ _)
+      | (obtain ⟨n, hn⟩ := tmpLink_of_answer (by assumption); rw [hn]; exact prefix_tmp _ _))
 
 /-- Close the per-call goals `ac_step` leaves behind. -/
 syntax "ac_leaf" : tactic
@@ -467,7 +471,7 @@ theorem extract_within (checked : Bool) (how : Extract) (cache : Path) (key : By
     · exact extractUnchecked_within how cache _ dest
 
 theorem lcommit_within (l : Linker) : AllCalls (Call.within [l.cache]) (lcommit cfg l) := by
-  unfold lcommit
+  unfold lcommit dropTmp
   repeat' (first | exact insert_within cfg _ _ _ | ac_step)
   all_goals ac_leaf
 
